@@ -5,13 +5,70 @@ From VT Require Import Listener.Listener Listener.RedisRetry Listener.ListenerPr
 
 (* ---- never stops ---- *)
 (* the transcription of _thread (for loop inside while True, two except levels) over ANY channel
-   contents and ANY fault scripts ends only when the channel is exhausted, lets no exception out,
-   and equals the fold of [step] over every item *)
+   contents and ANY fault scripts that raise Exception subclasses (at any operation, callback, send,
+   publish or in the iterator) ends only when the channel is exhausted, lets no exception out,
+   and equals the fold of [step] over every item.  (Until the model knew CancelledError this premise was
+   implicit: every exception name was an Exception subclass.) *)
 Theorem C15_total : forall own async s its,
+  forallb ordinary_item its = true ->
+  thread own async s its =
+  (fst (run own async s its), EListen :: List.concat (snd (run own async s its)) ++ [ELogErr], Exited).
+Proof. exact thread_total_ordinary. Qed.
+Print Assumptions C15_total.
+
+(* the same under the weakest premise: no item ends in a CancelledError that nothing absorbed
+   (CancelledError raised where the code absorbs it - coroutine callbacks, _return_callback, send tasks
+   under asyncio - is allowed) *)
+Theorem C15_total_except : forall own async s its,
+  no_cancel own async s its = true ->
   thread own async s its =
   (fst (run own async s its), EListen :: List.concat (snd (run own async s its)) ++ [ELogErr], Exited).
 Proof. exact thread_total. Qed.
-Print Assumptions C15_total.
+Print Assumptions C15_total_except.
+
+(* ... and without it the statement is false: a PLAIN-function callback that raises CancelledError under
+   asyncio (or any BaseException under the threaded manager) stops the listener; the next message, which
+   has an observable effect when handled, is never handled *)
+Theorem C15_total_refuted : 
+  exists own s it sent e,
+    ordinary_item sent = true /\
+    In e (snd (step own true (fst (step own true s it)) sent)) /\ observable e = true /\
+    snd (thread own true s [it; sent]) = Stopped /\
+    ~ In e (snd (fst (thread own true s [it; sent]))).
+Proof. exact total_refuted_by_cancelled_plain_callback. Qed.
+Print Assumptions C15_total_refuted.
+
+(* ---- application callbacks run by the listener ---- *)
+(* asyncio: a `callback` message for this host that reaches a COROUTINE application callback (registered with
+   emit(..., callback=)): whatever the callback does - return, raise any exception, raise CancelledError because
+   it awaits a task the application cancelled - the handling of the message ends normally (Ok: the for loop
+   takes the next message), the callback entry is consumed, an ordinary exception is logged *)
+Theorem C15_coroutine_callback_contained : forall own s m pk js kv sid id args l d n f2 r,
+  decode m pk js = PDict kv -> callback_message own kv sid id args ->
+  hashable sid = true -> hashable id = true ->
+  aget sid (cbs s) = Some d -> aget id d = Some (CbApp n) -> N.odd n = true ->
+  py_star args = Ok l ->
+  run_item own true s (IMsg m pk js (None :: f2 :: r)) =
+  (after_callback s sid id d,
+   EOp OTrigger [sid; id; args] :: ECallback n l :: cb_outcome_log f2, Ok tt).
+Proof. exact coroutine_callback_contained. Qed.
+Print Assumptions C15_coroutine_callback_contained.
+
+(* ... and the loop continues: the whole listener run is that segment followed by the run over the rest of
+   the channel from the state the callback left, to the end of the channel *)
+Theorem C15_listener_continues_after_coroutine_callback : forall own s m pk js kv sid id args l d n f2 r rest,
+  decode m pk js = PDict kv -> callback_message own kv sid id args ->
+  hashable sid = true -> hashable id = true ->
+  aget sid (cbs s) = Some d -> aget id d = Some (CbApp n) -> N.odd n = true ->
+  py_star args = Ok l ->
+  let s' := after_callback s sid id d in
+  no_cancel own true s' rest = true ->
+  thread own true s (IMsg m pk js (None :: f2 :: r) :: rest) =
+  (fst (run own true s' rest),
+   EListen :: (EOp OTrigger [sid; id; args] :: ECallback n l :: cb_outcome_log f2)
+           ++ List.concat (snd (run own true s' rest)) ++ [ELogErr], Exited).
+Proof. exact listener_continues_after_coroutine_callback. Qed.
+Print Assumptions C15_listener_continues_after_coroutine_callback.
 
 (* the k-th item is handled in the state left by the first k-1, whatever their outcome;
    exactly one segment of effects per item *)
